@@ -665,8 +665,11 @@ class RaisingSigner(SynthSigner):
         raise RuntimeError('signing failed')
 
 
-def make_packet(case):
+def make_packet(case, rec=None):
     """returns dict: made wire (or error), what the signer saw, and the model's input values.
+    `rec` (default: built from case['signer']): the signer object to use - a packet built from inside that very signer
+    (see Reentry).  case['reenter'] (default: absent): the signer builds other packets while it works (see Reentry), what
+    became of them is returned as `nested`.
     Optional case keys (all default to the plain call): name_form / fh_form (see name_in_form), payload_form (BUF_FORMS:
     how Content / ApplicationParameters / FinalBlockId are held), key_form (key_in_form), obj_form='from_dict'
     (MetaInfo.from_dict / InterestParam.from_dict build the parameter object), pre = an EARLIER call made with the very
@@ -676,11 +679,16 @@ def make_packet(case):
     from ndn import encoding as enc
     out = {}
     kn = case.get('key_name')
-    try:
-        inner = make_signer(case['signer'], None if kn is None else [bytes.fromhex(c) for c in kn], case.get('key_form'))
-    except Exception as e:   # noqa  (a signer that cannot be built from a legal key counts as a packet that cannot be built)
-        return {'made': ['err', exc_name(e)], 'siginfo': '_', 'final_name': None}
-    rec = Recorder(inner) if inner is not None else None
+    reentry = None
+    if rec is None:
+        try:
+            inner = make_signer(case['signer'], None if kn is None else [bytes.fromhex(c) for c in kn], case.get('key_form'))
+        except Exception as e:   # noqa  (a signer that cannot be built from a legal key counts as a packet that cannot be built)
+            return {'made': ['err', exc_name(e)], 'siginfo': '_', 'final_name': None}
+        rec = Recorder(inner) if inner is not None else None
+        if inner is not None and case.get('reenter'):
+            reentry = Reentry(case['reenter'], nested_do)
+            rec = ReentrantRecorder(inner, reentry)
     scratch = []
     pre = case.get('pre')
     nform = case.get('name_form')
@@ -745,6 +753,8 @@ def make_packet(case):
         out['siginfo'] = T.value_text(_si_value(rec.si)) if rec.si is not None else '_'
     else:
         out['siginfo'] = '_'
+    if reentry is not None:
+        out['nested'] = reentry.records
     return out
 
 
@@ -890,3 +900,128 @@ def impl_parse_obs(p):
     if p['res'] == 'err':
         return p
     return {k: p[k] for k in ('res', 'values', 'SC', 'SV', 'DC', 'DV')}
+
+
+# ------------------------------------------------------------------ signers that use the library while they sign
+# A signer is an object of the application: its three methods may do anything a key store does - fetch a key with an
+# Interest, log with a Data packet, have a certificate issued - and so build OTHER packets with make_data / make_interest /
+# new_cert (with another signer, of another signature length, or with the very same signer object) while the packet they
+# were called for is half done: after its SignatureInfo was asked for ('info'), in the middle of the length pass ('size'),
+# after the packet was written and before / after the signature was computed ('value-before' / 'value-after').  The same
+# interleaving arises between two threads that sign at the same time; a re-entrant signer exhibits it deterministically.
+REENTER_AT = ['info', 'size', 'value-before', 'value-after']
+
+
+class Reentry:
+    """specs = [{'at': one of REENTER_AT, ...}]; do(spec, signer) performs the nested operation and returns a
+    JSON-serialisable record (it gets 'i' = index of its spec); the records are kept in the order they were made.
+    Packets built from inside are not re-entered again by THIS object (a nested case may carry a 'reenter' of its own)."""
+    def __init__(self, specs, do):
+        self.specs, self.do, self.depth, self.records = list(specs or []), do, 0, []
+
+    def fire(self, at, signer):
+        if self.depth:
+            return
+        for i, s in enumerate(self.specs):
+            if s['at'] == at:
+                self.depth += 1
+                try:
+                    r = self.do(s, signer)
+                    r['i'] = i
+                    self.records.append(r)
+                finally:
+                    self.depth -= 1
+
+
+class ReentrantRecorder(Recorder):
+    """a Recorder whose signer builds other packets while it works; what is on record is always the call in progress
+    (a nested call with this very object has its own record while it lasts)"""
+    def __init__(self, inner, reentry):
+        super().__init__(inner)
+        self.reentry = reentry
+
+    def _fire(self, at):
+        saved = (self.si, self.reserved, self.covered, self.sig)
+        try:
+            self.reentry.fire(at, self)
+        finally:
+            self.si, self.reserved, self.covered, self.sig = saved
+
+    def write_signature_info(self, si):
+        self.inner.write_signature_info(si)
+        self.si = si
+        self._fire('info')
+
+    def get_signature_value_size(self):
+        self.reserved = self.inner.get_signature_value_size()
+        self._fire('size')
+        return self.reserved
+
+    def write_signature_value(self, wire, contents):
+        self.covered = [bytes(c) for c in contents]
+        self._fire('value-before')
+        n = self.inner.write_signature_value(wire, contents)
+        self.sig = bytes(wire[:n])
+        self._fire('value-after')
+        return n
+
+
+def nested_cert(spec, signer=None):
+    """a certificate issued with another signer (or `signer`): ['ok', wire hex] / ['err', class]"""
+    import datetime as dt
+    from ndn.app_support import security_v2 as sv
+    try:
+        sg = signer if signer is not None else make_signer(spec['signer'])
+        _, w = sv.derive_cert('/nested/KEY/%01', spec.get('issuer_id', 'inner'), bytes(range(7)) * (spec.get('len', 91) // 7),
+                              sg, dt.datetime(2002, 3, 4, 5, 6, 7), 3600)
+        return ['ok', bytes(w).hex()]
+    except Exception as e:     # noqa
+        return ['err', exc_name(e)]
+
+
+def nested_do(spec, signer):
+    """the nested operations make_packet knows: {'case': a packet case (as for make_packet), 'same': built with the very
+    signer object that is at work} -> {'made': make_packet's result}; {'cert': {'signer', 'len'}} -> {'cert': ...}"""
+    if 'case' in spec:
+        return {'at': spec['at'], 'made': make_packet(spec['case'], rec=signer if spec.get('same') else None)}
+    return {'at': spec['at'], 'cert': nested_cert(spec['cert'])}
+
+
+NESTED_SIGNERS = [['ec256'], ['ec256'], ['ec384'], ['ec521'], ['ec224'], ['ed25519'], ['hmac'], ['digest', 0], ['synth', 72, 64],
+                  ['synth', 40, 0], ['synth', 200, 199]]
+
+
+def nested_packet_case(rng, tier, outer=None):
+    """a packet case built from inside a signer: small (it is one of two packets of its case); with `outer` given it is
+    signed by the same signer (specification and key locator of the outer case)"""
+    c = gen_data_case(rng, tier) if rng.random() < 0.6 else gen_interest_case(rng, tier)
+    for k in ('pre', 'reenter'):
+        c.pop(k, None)
+    for k in ('content', 'app'):
+        if (c.get(k) or 0) > 400:
+            c[k] = rng.randint(0, 300)
+    if outer is not None:
+        c['signer'] = outer['signer']
+        for k in ('key_name', 'key_form'):
+            c.pop(k, None)
+            if outer.get(k) is not None:
+                c[k] = outer[k]
+    elif c['signer'][0] in ('rsa2048', 'rsa4096', 'null') or rng.random() < 0.5:
+        c['signer'] = rng.choice(NESTED_SIGNERS)
+        c.pop('key_form', None)
+    return c
+
+
+def rand_reenter(rng, tier, outer, ats=None):
+    """1..2 nested operations for the signer of the packet case `outer`"""
+    specs = []
+    for _ in range(rng.choice([1, 1, 1, 2])):
+        at = rng.choice(ats or REENTER_AT + ['value-before', 'value-after'])
+        r = rng.random()
+        if r < 0.55:
+            specs.append({'at': at, 'case': nested_packet_case(rng, tier)})
+        elif r < 0.8 and outer['signer'][0] not in ('none',):
+            specs.append({'at': at, 'case': nested_packet_case(rng, tier, outer), 'same': True})
+        else:
+            specs.append({'at': at, 'cert': {'signer': rng.choice(NESTED_SIGNERS), 'len': rng.choice([0, 32, 91, 294])}})
+    return specs
